@@ -77,6 +77,10 @@ class InverterProtocol:
             except RuntimeError:
                 logger.debug("Failed to close transport.")
             self._transport = None
+        # Cancel pending timeout timer, the request attempt it guards is over
+        if self._timer:
+            self._timer.cancel()
+            self._timer = None
         # Cancel Future on connection lost
         if self.response_future and not self.response_future.done():
             self.response_future.cancel()
@@ -226,6 +230,7 @@ class UdpInverterProtocol(InverterProtocol, asyncio.DatagramProtocol):
         else:
             if self._timer:
                 logger.debug("Failed to receive response to %s in time (%ds).", self.command, self.timeout)
+                self._timer.cancel()
                 self._timer = None
             if self.response_future and not self.response_future.done():
                 self.response_future.cancel()
@@ -381,6 +386,7 @@ class TcpInverterProtocol(InverterProtocol, asyncio.Protocol):
         else:
             if self._timer:
                 logger.debug("Failed to receive response to %s in time (%ds).", self.command, self.timeout)
+                self._timer.cancel()
                 self._timer = None
             self._close_transport()
 
